@@ -11,7 +11,9 @@ def c12Pinned : List (String × String) := [
   ("tensordict/base.py:TensorDictBase._map", "bd74d4003728324b"),
   ("tensordict/_td.py:TensorDict._multithread_apply_flat", "44679564665d0b6d"),
   ("tensordict/_td.py:TensorDict._multithread_rebuild", "c0cd5b13c51f35ed"),
-  ("tensordict/utils.py:TensorDictFuture.result", "9864184530958cbb")
+  ("tensordict/utils.py:TensorDictFuture.result", "9864184530958cbb"),
+  ("tensordict/utils.py:_proc_init", "af7edb7450e91b2c"),
+  ("tensordict/base.py:TensorDictBase.map", "8e0fd1b34181fa27")
 ]
 
 end TdVerif.C12
